@@ -39,19 +39,16 @@ def seq_factory(ns):
 
         def harness(eng):
             tps = [vsign.build(eng, f'{ns}.e{i}', N=1, M=1, Loh=2, junk=False, thr_kinds=('int',)) for i in (1, 2)]
-            gpg = tps[0]['gpg']
             for tp in tps:
                 freeze(tp['signable'])
-                tp['gpg'] = gpg
             it = Interp(eng, ovr)
             order = [0, 1, 0]
             outs, ors = [], []
             for k in order:
                 tp = tps[k]
-                outs.append(run_call(it, A.verify_signable, [tp['signable'], tp['authv'], tp['thr']], {'gpg': gpg}))
+                outs.append(run_call(it, A.verify_signable, [tp['signable'], tp['authv'], tp['thr']], {'gpg': tp['gpg']}))
                 ors.append(vsign.oracle(it, tp))
-            # the two payloads are different JSON values
-            eng.add(tps[0]['payload'].pid != tps[1]['payload'].pid)
+            # the two payloads may be equal or different JSON values; the two modes are independent
             m = path_model(eng)
             if m is None:
                 return None
@@ -59,7 +56,7 @@ def seq_factory(ns):
             def mk(mm):
                 cases = [vsign.mk_case(eng, tp, mm) for tp in tps]
                 vt = vsign.valid_table(eng, mm)
-                return dict(scenario='sequence', calls=[dict(signable=cases[k]['signable'], auth=cases[k]['auth'], threshold=cases[k]['threshold'], gpg=cases[0]['gpg']) for k in order],
+                return dict(scenario='sequence', calls=[dict(signable=cases[k]['signable'], auth=cases[k]['auth'], threshold=cases[k]['threshold'], gpg=cases[k]['gpg']) for k in order],
                             env=dict(valid=vt, stdout_enc=None))
             obs = []
             for i, (out, o) in enumerate(zip(outs, ors)):
@@ -76,6 +73,52 @@ def seq_factory(ns):
             w['predicted'] = [predicted(o) for o in outs]
             reach = ['/'.join('A' if is_ret(o) else 'R' for o in outs)]
             return record(eng, outs[2], obs, w, reach, okey_='/'.join(okey(o) for o in outs))
+        return harness
+    return f
+
+
+def edit_factory(ns):
+    """verify, edit the payload object IN PLACE, verify the same envelope object again, undo the edit, verify again"""
+    def f(eng):
+        import conda_content_trust.authentication as A
+        from harness import lemmas
+        ovr = lemmas.overrides(eng)
+
+        def harness(eng):
+            t = T(eng, ns=ns)
+            a, b = t.int('va'), t.int('vb')
+            payload = {'v': a, 'w': [1, 2]}
+            tp = vsign.build(eng, ns, N=1, M=1, Loh=2, junk=False, thr_kinds=('int',), payload=payload)
+            it = Interp(eng, ovr)
+            outs, ors, snaps = [], [], []
+            for val in (a, b, a):
+                payload['v'] = val
+                outs.append(run_call(it, A.verify_signable, [tp['signable'], tp['authv'], tp['thr']], {'gpg': tp['gpg']}))
+                ors.append(vsign.oracle(it, tp))
+                snaps.append(val)
+            eng.add(a.e != b.e)
+            m = path_model(eng)
+            if m is None:
+                return None
+
+            def mk(mm):
+                calls = []
+                for val in snaps:
+                    payload['v'] = val
+                    c = vsign.mk_case(eng, tp, mm)
+                    calls.append(dict(signable=c['signable'], auth=c['auth'], threshold=c['threshold'], gpg=c['gpg']))
+                return dict(scenario='sequence', in_place=True, calls=calls, env=dict(valid=vsign.valid_table(eng, mm), stdout_enc=None))
+            obs = []
+            for i, (out, o) in enumerate(zip(outs, ors)):
+                if is_ret(out):
+                    obs.append(oblige(eng, f'verification {i + 1} (payload edited in place between calls) accepted => signatures are valid over the payload as it is NOW',
+                                      z3.Not(z3.And(o['thr_ok'], o['lib'] >= o['thr_val'])), mk))
+                else:
+                    obs.append(oblige(eng, f'verification {i + 1} (payload edited in place between calls) rejected => not enough signatures over the payload as it is now',
+                                      z3.And(o['auth_ok'], o['thr_ok'], o['strict'] >= o['thr_val']), mk))
+            w = mk(m)
+            w['predicted'] = [predicted(o) for o in outs]
+            return record(eng, outs[2], obs, w, ['/'.join('A' if is_ret(o) else 'R' for o in outs)], okey_='/'.join(okey(o) for o in outs))
         return harness
     return f
 
@@ -194,7 +237,8 @@ def units(tier):
     us = [Unit('barrier:verify_signable', pure_note(vsign.factory('c12s', PROPS, N=1 if q else 2, M=1, Loh=2, junk=True)), expect=('accepts',), max_witnesses=150),
           Unit('barrier:verify_delegation', pure_note(vdeleg.factory_vd('c12d', PROPS, **VD)), expect=('accepts',), max_witnesses=150),
           Unit('barrier:verify_root', pure_note(vdeleg.factory_vr('c12r', PROPS, **VR)), expect=('accepts',), max_witnesses=150),
-          Unit('sequence:E1,E2,E1', seq_factory('c12q'), expect=('A/A/A', 'A/R/A', 'R/A/R', 'R/R/R'), max_witnesses=300)]
+          Unit('sequence:E1,E2,E1', seq_factory('c12q'), expect=('A/A/A', 'A/R/A', 'R/A/R', 'R/R/R'), max_witnesses=300),
+          Unit('sequence:in-place edit', edit_factory('c12e'), expect=('A/R/A', 'R/A/R', 'R/R/R', 'A/A/A'), max_witnesses=200)]
     us += [Unit(f'wrap:{k}', wrap_factory(i), expect=('wrapped',) if k not in ('set', 'bytes') else ('rejected',), max_witnesses=5)
            for i, k in enumerate(['dict', 'list', 'tuple', 'str', 'int', 'float', 'bool', 'none', 'set', 'bytes'])]
     return us
@@ -213,10 +257,18 @@ def concrete(case):
     if sc == 'sequence':
         import conda_content_trust.authentication as A
         CC.setup_valid_table(case['env'].get('valid', []))
-        outs, fresh = [], []
+        outs = []
         with CC.stdout_as(None):
+            env0 = None
             for c in case['calls']:
                 a = [from_wire(c['signable']), from_wire(c['auth']), from_wire(c['threshold'])]
+                if case.get('in_place'):
+                    if env0 is None:
+                        env0 = a[0]
+                    else:              # same envelope and payload objects, content edited in place
+                        env0['signed'].clear()
+                        env0['signed'].update(a[0]['signed'])
+                    a[0] = env0
                 outs.append(CC.outcome_of(A.verify_signable, *a, gpg=from_wire(c['gpg'])))
         return {'outcomes': outs}
     if sc == 'wrap':
@@ -294,7 +346,7 @@ def judge(case, obs):
 
 
 BOUNDS = dict(barrier='verify_signable (1 entry quick / 2 thorough + junk), verify_delegation, verify_root on the typed templates of C01 / C05 / C03 with one role and one key',
-              sequence='3 calls E1, E2, E1 of verify_signable in one interpreter state; each envelope has one entry of free strings, one free authorised key, int threshold; both modes; payloads distinct',
+              sequence='3 calls E1, E2, E1 of verify_signable in one interpreter state; each envelope has one entry of free strings, one free authorised key, int threshold; modes chosen independently per envelope; payloads equal or distinct',
               wrap='payloads: dict / list / tuple with nested dict and list, str, int, binary64, bool, None, and the non-serialisable set / bytes')
 OUTSIDE = 'thread interleavings (Python threads are not encoded; the write barrier supports but does not prove schedule independence), hash seed, locale, working directory, modules imported earlier in the process; sequences longer than 3 calls; id()-keyed state (address-dependent behaviour is reported as inconclusive)'
 ASSUMPTIONS = ['A2, A3; deepcopy / copy are modelled as structural clones with fresh identities / one-level clones']
